@@ -315,7 +315,17 @@ fn gen_meta(rng: &mut Rng) -> (Option<String>, Vec<i64>, Vec<(String, String)>, 
 
 pub fn gen_con(rng: &mut Rng, id: u64, ids: &[u64], max_degree: usize) -> ConSpec {
     let (name, subscripts, parameters, description) = gen_meta(rng);
-    let function = if rng.chance(1, 12) { None } else { Some(gen_func(rng, ids, max_degree)) };
+    let function = if rng.chance(1, 12) {
+        None
+    } else if rng.chance(1, 8) {
+        // a value right next to the feasibility tolerance (|f| < 1e-6): 2^-24 = 6.0e-8, 2^-21 = 4.8e-7 and
+        // 2^-20 = 9.5e-7 hold, 2^-19 = 1.9e-6 does not; all are exact in the reference model
+        let tiny = *rng.pick(&[-24i32, -21, -20, -19]);
+        let v = 2f64.powi(tiny) * if rng.chance(1, 3) { -1.0 } else { 1.0 };
+        Some(if rng.chance(1, 2) { FuncSpec::Constant(F(v)) } else { FuncSpec::Linear { terms: vec![], constant: F(v) } })
+    } else {
+        Some(gen_func(rng, ids, max_degree))
+    };
     ConSpec { id, equality: 1 + rng.below(2) as i32, function, name, subscripts, parameters, description }
 }
 
